@@ -275,14 +275,14 @@ Proof.
   left. eexists. reflexivity.
 Qed.
 
-Lemma decode_pan_no_crash ctrl fill_ok pinblock pan : bytes_ok pinblock = true ->
+Lemma decode_pan_no_crash ctrl fill_ok pinblock pan :
   let r := if bad_pan13 pan then Err ValueError
            else if negb (length pinblock =? 8)%nat then Err ValueError
            else do pb <- pan_block pan;
                 decode_body ctrl fill_ok 16 (hex_upper (py_xor pinblock pb)) in
   (~ dom_decode_pinblock_pan pinblock pan -> r = Err ValueError) /\ ok_or_value_error r.
 Proof.
-  intros B r. subst r. unfold dom_decode_pinblock_pan.
+  intros r. subst r. unfold dom_decode_pinblock_pan.
   destruct (bad_pan13 pan) eqn:E1.
   { split; [reflexivity|right; reflexivity]. }
   apply bad_pan13_false in E1.
@@ -295,15 +295,15 @@ Proof.
   - apply uhex_hex, hex_upper_uhex, py_xor_bytes_ok_any.
 Qed.
 
-Lemma decode_pinblock_iso_0_char pinblock pan : bytes_ok pinblock = true ->
+Lemma decode_pinblock_iso_0_char pinblock pan :
   (~ dom_decode_pinblock_pan pinblock pan -> decode_pinblock_iso_0 pinblock pan = Err ValueError) /\
   ok_or_value_error (decode_pinblock_iso_0 pinblock pan).
-Proof. intros B. exact (decode_pan_no_crash 48 (fill_is chF) pinblock pan B). Qed.
+Proof. exact (decode_pan_no_crash 48 (fill_is chF) pinblock pan). Qed.
 
-Lemma decode_pinblock_iso_3_char pinblock pan : bytes_ok pinblock = true ->
+Lemma decode_pinblock_iso_3_char pinblock pan :
   (~ dom_decode_pinblock_pan pinblock pan -> decode_pinblock_iso_3 pinblock pan = Err ValueError) /\
   ok_or_value_error (decode_pinblock_iso_3 pinblock pan).
-Proof. intros B. exact (decode_pan_no_crash 51 fill_af pinblock pan B). Qed.
+Proof. exact (decode_pan_no_crash 51 fill_af pinblock pan). Qed.
 
 Lemma decode_pinblock_iso_2_char pinblock : bytes_ok pinblock = true ->
   (length pinblock <> 8%nat -> decode_pinblock_iso_2 pinblock = Err ValueError) /\
@@ -431,12 +431,12 @@ Theorem encipher_pinblock_iso_4_domain : forall ca, cipher_ok ca -> bs ca = 16%n
                   (encipher_pinblock_iso_4 ca key pin pan tape8).
 Proof. intros. apply char_accepts, encipher_pinblock_iso_4_char; assumption. Qed.
 
-Theorem decode_pinblock_iso_0_domain : forall pinblock pan, bytes_ok pinblock = true ->
+Theorem decode_pinblock_iso_0_domain : forall pinblock pan,
   (~ dom_decode_pinblock_pan pinblock pan -> decode_pinblock_iso_0 pinblock pan = Err ValueError) /\
   ok_or_value_error (decode_pinblock_iso_0 pinblock pan).
 Proof. exact decode_pinblock_iso_0_char. Qed.
 
-Theorem decode_pinblock_iso_3_domain : forall pinblock pan, bytes_ok pinblock = true ->
+Theorem decode_pinblock_iso_3_domain : forall pinblock pan,
   (~ dom_decode_pinblock_pan pinblock pan -> decode_pinblock_iso_3 pinblock pan = Err ValueError) /\
   ok_or_value_error (decode_pinblock_iso_3 pinblock pan).
 Proof. exact decode_pinblock_iso_3_char. Qed.
@@ -458,3 +458,11 @@ Theorem decipher_pinblock_iso_4_domain : forall ca, cipher_ok ca -> bs ca = 16%n
      decipher_pinblock_iso_4 ca key pin_block pan = Err ValueError) /\
   ok_or_value_error (decipher_pinblock_iso_4 ca key pin_block pan).
 Proof. intros. apply decipher_pinblock_iso_4_char; assumption. Qed.
+
+Theorem encode_pinblock_iso_3_reject_any_draw : forall pin pan choices,
+  ~ dom_encode_pinblock_iso_3 pin pan -> encode_pinblock_iso_3 pin pan choices = Err ValueError.
+Proof. exact encode_pinblock_iso_3_reject. Qed.
+
+Theorem encode_pin_field_iso_4_reject_any_draw : forall pin tape,
+  ~ dom_encode_pin_field_iso_4 pin -> encode_pin_field_iso_4 pin tape = Err ValueError.
+Proof. exact encode_pin_field_iso_4_reject. Qed.
